@@ -225,6 +225,7 @@ func visitInstr(fr *frame, instr ssa.Instruction) continuation {
 			panic(targetPanic{"runtime error: invalid memory address or nil pointer dereference"})
 		}
 		i.checkFrozen(addr)
+		i.yieldShared(addr)
 		store(mustDeref(instr.Addr.Type()), addr, fr.get(instr.Val))
 
 	case *ssa.If:
